@@ -7,12 +7,18 @@
    the graph commutes with every operation of the reader, of kekulize, of the strict check, of the inversion pass and
    of the emitting walk, so encoder(s, attribute=False) is encoder(s, attribute=True) with the attribution erased -
    same outcome, same string, same indices and tokens (C17_encoder_attribute_erased, C17_encoder_same_string).
-   Not a theorem (judged per input on every run): that the encoder attributes each SELFIES atom symbol to the SMILES
-   atom token it was made from (independent tokenisations in the harness; exact lists compared with the model). *)
+   ... and TRUTHFUL (proofs/EncAttr.v, C17_encoder_attribution_truthful): the reader stores with the k-th atom of the
+   graph the pair (position, text) of the k-th atom token of the input, from whose text that atom was read (a bond
+   character counts as a position of its own, '.' is not counted); kekulize and the inversion pass keep the pair (they
+   change the aromatic flag and the chirality tag only); and in the walk that emits the output every atom symbol is
+   printed from one atom of that graph and carries exactly that atom's pair (inductive description `Walked`: atom
+   symbol, then ring symbols / branches, recursively).  Entries of ring, branch and index symbols carry the
+   attribution of their bond; the property says nothing about them.  The `index` field of the encoder's entries is
+   not covered by the property (it is wrong inside branches: DESIGN 5/C17) and is not part of the theorem. *)
 From Coq Require Import String List ZArith NArith Bool.
 Import ListNotations.
 From Selfies Require Import Base Generated Atoms Grammar Decoder PySet Matching Smiles Kekulize Encoder
-  IndexSpec IndexCode Reader DocGrammar RoundTrip EncoderFacts PureFacts AttrFacts AttrOut AttrIn AttrFinal EncErase.
+  IndexSpec IndexCode Reader DocGrammar RoundTrip EncoderFacts PureFacts AttrFacts AttrOut AttrIn AttrFinal EncErase EncAttr.
 Local Open Scope string_scope.
 
 Theorem C17_offsets_partial :
@@ -88,6 +94,25 @@ Proof.
   split; [reflexivity|]. rewrite !map_map. split; apply map_ext; reflexivity.
 Qed.
 
+(* the encoder's entries are truthful: every SELFIES atom symbol carries the (position, text) of the SMILES atom token
+   its atom was read from *)
+Theorem C17_encoder_attribution_truthful : forall T smiles strict x maps ts,
+  encoder T smiles strict true = Ok (x, maps) -> tokenize_smiles smiles = Ok ts ->
+  exists m tss mss,
+    Forall2 attributed_to (m_atoms m) (expect ts 0) /\ m_attributable m = true /\
+    x = join (lit ".") (map (@concat N) tss) /\
+    maps = filter (fun a => match am_token a with [] => false | _ => true end) (concat mss) /\
+    Forall2 (fun toks ms => Walked (printed_from m) m toks (map ent ms)) tss mss.
+Proof. exact encoder_attribution_truthful. Qed.
+
+(* non-vacuity: a multi-fragment input with bond characters, a ring, a branch and an aromatic ring *)
+Example C17_encoder_attribution_example :
+  match encoder default_constraints (lit "C=C(/F)c1ccccc1.[Na+]") true true with
+  | Ok (_, maps) => map (fun a => (am_token a, am_attr a)) (firstn 3 maps) =
+                    [(lit "[C]", Some [(0, lit "C")]); (lit "[=C]", Some [(2, lit "C")]); (lit "[/F]", Some [(5, lit "F")])]%nat
+  | Err _ => False end.
+Proof. vm_compute. reflexivity. Qed.
+
 Print Assumptions C17_offsets_partial.
 Print Assumptions C17_decoder_observation_only_partial.
 Print Assumptions C17_decoder_same_string.
@@ -95,3 +120,4 @@ Print Assumptions C17_decoder_same_error.
 Print Assumptions C17_decoder_attribution_truthful.
 Print Assumptions C17_encoder_attribute_erased.
 Print Assumptions C17_encoder_same_string.
+Print Assumptions C17_encoder_attribution_truthful.
